@@ -104,6 +104,10 @@ func (s *jwtSigner) load() error {
 	var kse *keystore.Entry
 
 	if len(s.keyID) == 0 {
+		if len(ks.Entries()) == 0 {
+			return errorchain.NewWithMessage(heimdall.ErrConfiguration, "no key material present in the key store")
+		}
+
 		kse, err = ks.Entries()[0], nil
 	} else {
 		kse, err = ks.GetKey(s.keyID)
